@@ -16,8 +16,10 @@ struct vrange {
   vrange(vrange& o, split s) : r((note(o, 0, 0, 0), o.r), s) {}
 };
 typedef d1::range_vector<vrange, 8> rv_t;
-static unsigned char rv_mem[sizeof(rv_t)] __attribute__((aligned(64)));
-#define RV ((rv_t*)rv_mem)
+// typed static storage (a byte array accessed through a struct pointer costs cbmc a byte-level encoding of every access)
+static union rv_store { rv_t v; rv_store() {} ~rv_store() {} } rv_u;
+#define RV (&rv_u.v)
+#define rv_mem ((void*)&rv_u.v)
 extern "C" {
 unsigned vp_rv_capacity() { return 8; }
 // build: real constructor, then overwrite the ring state: slot i holds [b[i],e[i]) with depth d[i]
